@@ -177,6 +177,7 @@ def call_method(self, st, recv: ObjRef, meth: str, args, kwargs):
         contract, key = self.reg.contracts[top.call_overrides[meth]], None   # the function under verification sees this callee contract
     if contract is not None:
         if contract.handler:
+            self.note_assumed(contract)
             return contract.handler(self, st, recv, args, kwargs)
         if contract.inline:
             return self.inline_call(st, key or contract.key, recv, args, kwargs, contract)
@@ -190,6 +191,7 @@ def call_function(self, st, key: str, recv, args, kwargs):
     contract = self.reg.contracts.get(key)
     if contract is not None:
         if contract.handler:
+            self.note_assumed(contract)
             return contract.handler(self, st, recv, args, kwargs)
         if not contract.inline:
             return self.apply_contract(st, contract, recv, args, kwargs)
@@ -203,6 +205,7 @@ def call_classmethod(self, st, cls: FuncVal, meth: str, args, kwargs):
     key = f"{cls.key}.{meth}"
     contract = self.reg.contracts.get(key)
     if contract is not None and contract.handler:
+        self.note_assumed(contract)
         return contract.handler(self, st, cls, args, kwargs)
     if contract is not None and not contract.inline:
         return self.apply_contract(st, contract, None, args, kwargs)
@@ -386,6 +389,7 @@ def frame_cells(self, st, recv, contract: Contract):
 
 def apply_contract(self, st, contract: Contract, recv, args, kwargs):
     """Modular call: assert requires, havoc the frame, assume one case's ensures."""
+    self.note_assumed(contract)
     arg_locals = getattr(self, "_arg_locals", ([], {}))
     self._arg_locals = ([], {})
     bound = self.contract_args(contract, contract.key, recv, args, kwargs, st)
@@ -1044,6 +1048,7 @@ def value_method(self, st, recv, name, args, kwargs, lv):
             key = f"{pycls[0]}:{pycls[1]}.{name}"
             contract = self.reg.contracts.get(key)
             if contract is not None and contract.handler:
+                self.note_assumed(contract)
                 return contract.handler(self, st, recv, args, kwargs)
             if contract is not None and not contract.inline:
                 return self.apply_contract(st, contract, None, [recv] + list(args), kwargs)
